@@ -116,6 +116,7 @@ TrWrapperDecode ==
        /\ Chk("C03", "decoding_never_panics", l,
               E.verdict \in {"ok", "err"} /\ \A r \in Range(E.parts) : r.verdict \in {"ok", "err"})
        /\ Chk("C01", "each_part_accepts_its_own_messages_and_no_other_name", l, OracleOk(P, ep, doc, o))
+       /\ Chk("C17", "a_forwarded_default_makes_the_argument_optional_on_the_wire", l, doc.body = "dropdefault" => E.verdict = "ok")
        \* the step is bound to what was observed; the specification's mechanism is compared with it
        /\ pv' = o
        /\ dec' = [verdict |-> IF E.verdict = "ok" THEN "ok" ELSE "err",
@@ -142,6 +143,7 @@ TrStructDecode ==
     /\ stage = "delivered" /\ ep \in {"instantiate", "migrate"} /\ fx.via = "ep"
     /\ Chk("C03", "decoding_never_panics", l, E.verdict \in {"ok", "err"})
     /\ Chk("C01", "struct_message_accepts_its_own_flat_encoding", l, StructVerdictOk(E.verdict))
+    /\ Chk("C17", "a_forwarded_default_makes_the_argument_optional_on_the_wire", l, doc.body = "dropdefault" => E.verdict = "ok")
     /\ StructDecode(E.verdict)
     /\ fx' = [fx EXCEPT !.lastsv = E.verdict]
     /\ UNCHANGED pv
@@ -198,6 +200,11 @@ TrHandler ==
     /\ Chk("C02", "every_field_reaches_the_parameter_of_the_same_name", l,
            /\ [i \in 1..Len(E.args) |-> E.args[i].n] = ArgNames(OwnerMethod)
            /\ SentArgsOk(E, fx.docj))
+    /\ Chk("C17", "an_argument_left_out_takes_the_default_its_forwarded_attribute_gives_it", l,
+           doc.body = "dropdefault" =>
+               \A i \in 1..Len(E.args) :
+                   (\E a \in Range(OwnerMethod.args) : a.n = E.args[i].n /\ a.t \in {"DfltU32", "DfltU32W"})
+                       => E.args[i].json = [t |-> "n", v |-> "0"])
     /\ Chk("C02", "context_is_the_callers", l, CtxOk(E))
     /\ Chk("C06", "entry_point_dispatches_with_the_given_deps_env_and_info", l,
            fx.via = "ep" => (CtxOk(E) /\ ran'[Len(ran')] = [part |-> E.part, name |-> E.name, kind |-> E.kind]))
